@@ -616,6 +616,18 @@ func (w *walker) walkField(fpath string, f flatField, set func(any) any, at stri
 				w.add(gcase{kind: "mistyped", path: fpath + "#no-unit", at: "-", exp: "reject", cfg: set("30")})
 			}
 		}
+	case reflect.Interface:
+		// round 6: an `interface{}` option (no plugin position): any value is stored as it is; a text with a placeholder
+		// inside is substituted, an unset variable is an error, a lone resolvable placeholder is "unsupported kind"
+		w.add(gcase{kind: "valid", path: fpath, at: "-", exp: "accept", cfg: set("text")})
+		w.add(gcase{kind: "valid", path: fpath + "#number", at: "-", exp: "accept", cfg: set(5)})
+		w.add(gcase{kind: "ph-any", path: fpath + "#embedded", at: "-", exp: "accept", cfg: set("x-" + ph("env", "C17_STR")), uses: true})
+		w.add(gcase{kind: "ph-any", path: fpath + "#two", at: "-", exp: "accept", cfg: set(ph("env", "C17_STR") + ph("property", "int")), uses: true})
+		w.add(gcase{kind: "ph-any", path: fpath + "#lone", at: "-", exp: "none", cfg: set(ph("env", "C17_INT")), uses: true})
+		w.add(gcase{kind: "ph-unset", path: fpath, at: "-", exp: "reject", cfg: set(ph("env", "C17_UNSET")), uses: true})
+		w.add(gcase{kind: "ph-unset", path: fpath + "#embedded", at: "-", exp: "reject", cfg: set("x-" + ph("env", "C17_UNSET")), uses: true})
+		w.add(gcase{kind: "ph-noprop", path: fpath, at: "-", exp: "reject", cfg: set("x-" + ph("property", "nosuch")), uses: true})
+		w.add(gcase{kind: "ph-twin", path: fpath, at: "-", exp: "reject", cfg: set("x-${env:c17_str}"), uses: true})
 	case reflect.Slice:
 		w.add(gcase{kind: "mistyped", path: fpath, at: "-", exp: "reject", cfg: set(map[string]any{"a": 1})})
 		et := ft.Elem()
@@ -1149,6 +1161,16 @@ func (w *walker) walkPlugin(fpath string, iface reflect.Type, set func(any) any,
 	w.add(gcase{kind: "plugin-badname", path: fpath, at: "-", exp: "reject", cfg: set(map[string]any{"type": "no-such-plugin"})})
 	w.add(gcase{kind: "plugin-nonstring", path: fpath, at: "-", exp: "reject", cfg: set(map[string]any{"type": 5})})
 	w.add(gcase{kind: "plugin-badname", path: fpath + "#empty", at: "-", exp: "reject", cfg: set(map[string]any{"type": ""})})
+	// round 6: a STRING with a placeholder at a plugin position (the hooks of core/config run on the interface / factory
+	// type first): an unset variable / a missing property is an error also here, alone or inside a text; a lone resolvable
+	// placeholder has no castable kind ("unsupported kind": no demand, compared with the model); a text with a resolvable
+	// placeholder inside is substituted and then a string at a plugin position (a file sink at a sink position, else an error)
+	w.add(gcase{kind: "ph-unset", path: fpath + "#plugin", at: "-", exp: "reject", cfg: set(ph("env", "C17_UNSET")), uses: true})
+	w.add(gcase{kind: "ph-unset", path: fpath + "#plugin-embedded", at: "-", exp: "reject", cfg: set("/var/tmp/c17-props/" + ph("env", "C17_UNSET") + ".txt"), uses: true})
+	w.add(gcase{kind: "ph-noprop", path: fpath + "#plugin", at: "-", exp: "reject", cfg: set(ph("property", "nosuch")), uses: true})
+	w.add(gcase{kind: "ph-twin", path: fpath + "#plugin", at: "-", exp: "reject", cfg: set("/var/tmp/c17-props/${env:c17_str}.txt"), uses: true})
+	w.add(gcase{kind: "ph-plugin", path: fpath + "#lone", at: "-", exp: "none", cfg: set(ph("env", "C17_STR")), uses: true})
+	w.add(gcase{kind: "ph-plugin", path: fpath + "#embedded", at: "-", exp: "none", cfg: set("/var/tmp/c17-props/" + ph("env", "C17_STR") + ".txt"), uses: true})
 	if bp, ok := basePlugin(iface).(map[string]any); ok {
 		// a key that is no string (YAML `5: x`) is no option of any plugin
 		ik := map[any]any{5: "x"}
